@@ -125,7 +125,7 @@ def r04_1(run):
 def _method_atom(t):
     """'M' if test is `'M' in methods`."""
     if isinstance(t, ast.Compare) and len(t.ops) == 1 and isinstance(t.ops[0], ast.In) and \
-            isinstance(t.left, ast.Constant) and t.left.value in METHODS and dotted(t.comparators[0]) == 'methods':
+            isinstance(t.left, ast.Constant) and t.left.value in METHODS and isinstance(t.comparators[0], ast.Name):
         return t.left.value
     return None
 
@@ -274,6 +274,8 @@ def r04_4(run):
     run.ob('R04.4', sa, sa.node, 'server hash compared with compare_via_hash', len(cmp_tests) >= 1, slot='has-compare',
            message='_safecookie_authchallenge no longer compares the server hash')
 
+    server_nonce_names = names_defined_by(sa, lambda v: 'SERVERNONCE' in src(v))
+
     def hmac_of(e):
         e = c01._resolve_name(defs, e)
         if isinstance(e, ast.Call) and (dotted(e.func) or '').split('.')[-1] == 'hmac_sha256' and len(e.args) == 2:
@@ -291,7 +293,7 @@ def r04_4(run):
             else:
                 parts.append(dotted(x) or src(x))
         flat(m)
-        return parts == ['self._cookie_data', 'self.client_nonce', 'server_nonce']
+        return parts[:2] == ['self._cookie_data', 'self.client_nonce'] and len(parts) == 3 and parts[2] in server_nonce_names
     for c in cmds:
         for n in g.nodes_containing(c):
             ok = any(g.edge_dominates(t, 'T', n) for t in cmp_tests)
@@ -324,8 +326,7 @@ def r04_4(run):
         okr = bool(fl) and not any(e in g.reachable(fl) for e in g.normal_exits())
         run.ob('R04.4', sa, a, 'hash mismatch raises', okr, slot='mismatch-raises',
                message='a server hash mismatch does not abort _safecookie_authchallenge')
-    sn = [v for _, v in writes_of(sa, 'server_nonce')] + [d[1] for d in defs.get('server_nonce', []) if d[0] == 'expr']
-    run.ob('R04.4', sa, sa.node, 'server nonce comes from the reply', any('SERVERNONCE' in src(v) for v in sn), slot='server-nonce-source',
+    run.ob('R04.4', sa, sa.node, 'server nonce comes from the reply', len(server_nonce_names) == 1, slot='server-nonce-source',
            message='server_nonce is not taken from the AUTHCHALLENGE reply')
     # client nonce is fresh randomness
     da = U(run, '_do_authenticate')
